@@ -26,6 +26,7 @@ type rAlloc struct {
 	exp        int64
 	wp, cp     int64
 	mtc, mb    int64
+	size, data int64
 	bas        []rBA
 }
 type rSP struct {
@@ -101,7 +102,7 @@ func parseOut(out string) (status []string, st *rState, ok bool) {
 			st.allocs[k] = a
 			continue
 		}
-		if len(f) != 7 {
+		if len(f) != 9 {
 			return status, nil, false
 		}
 		a.present = true
@@ -111,6 +112,7 @@ func parseOut(out string) (status []string, st *rState, ok bool) {
 			a.cpPresent, a.cp = true, p64(f[4])
 		}
 		a.mtc, a.mb = p64(f[5]), p64(f[6])
+		a.size, a.data = p64(f[7]), p64(f[8])
 		if body != "" {
 			for _, b := range strings.Split(body, ";") {
 				g := strings.Split(b, ",")
@@ -227,13 +229,20 @@ func cause(op []string, prev *rState) string {
 			if b := prev.blobs[atoi(op[7])]; b != nil && b.dead {
 				return "replace-killed-blobber"
 			}
+		}
+		if (op[5] == "1" || atoi64(op[4]) > 0) && unevenExtend(op, prev) {
+			// the extend phase runs on blobber allocations of different sizes (or on a blobber added by this very
+			// update whose size is rounded differently): allocation.go 906/966 sets all sizes to the first one's
+			return "extend"
+		}
+		if op[7] != "-" {
 			return "replace-blobber"
 		}
 		if op[6] != "-" {
 			return "add-blobber"
 		}
 		if op[5] == "1" || atoi64(op[4]) > 0 {
-			return "extend"
+			return "extend-even"
 		}
 		return "update"
 	case "kill", "shut":
@@ -253,6 +262,35 @@ func cause(op []string, prev *rState) string {
 		return "upload"
 	}
 	return op[0]
+}
+
+// unevenExtend: the allocation's blobber allocations do not all have the first one's size when the extend phase of
+// this update starts (counting a blobber that the same update adds or swaps in: it gets ceil(size/data shards)).
+func unevenExtend(op []string, prev *rState) bool {
+	a := prev.allocs[atoi(op[1])]
+	if a == nil || !a.present || len(a.bas) == 0 || a.data <= 0 {
+		return false
+	}
+	added := (a.size + a.data - 1) / a.data
+	var sizes []int64
+	for _, d := range a.bas {
+		if op[7] != "-" && d.b == atoi(op[7]) {
+			if op[6] != "-" {
+				sizes = append(sizes, added) // swapped in at the removed one's position
+			}
+			continue
+		}
+		sizes = append(sizes, d.size)
+	}
+	if op[6] != "-" && op[7] == "-" {
+		sizes = append(sizes, added)
+	}
+	for _, z := range sizes {
+		if z != sizes[0] {
+			return true
+		}
+	}
+	return false
 }
 
 func oracle(prop string) func(ops, outs []string) *corr.Violation {
